@@ -10,6 +10,9 @@ use crate::{
     type_checker::type_checker_context::{TypeCheckerContext, WithType},
 };
 
+/// Upper limit on the number of elements of a `from..to` range.
+pub const MAX_RANGE_LENGTH: i64 = 1_000_000;
+
 #[derive(Debug, Serialize, Clone)]
 pub struct NumericRange {}
 
@@ -25,6 +28,16 @@ impl RoocFunction for NumericRange {
                 let from = from.as_integer_cast(context, fn_context)?;
                 let to = to.as_integer_cast(context, fn_context)?;
                 let to_inclusive = to_inclusive.as_boolean(context, fn_context)?;
+                //a range is materialised eagerly: refuse lengths that would take
+                //minutes and gigabytes instead of hanging the compiler
+                let length = (to as i128) - (from as i128) + if to_inclusive { 1 } else { 0 };
+                if length > MAX_RANGE_LENGTH as i128 {
+                    return Err(TransformError::TooLarge {
+                        message: "A range can have at most this many elements".to_string(),
+                        got: length.min(i64::MAX as i128) as i64,
+                        max: MAX_RANGE_LENGTH,
+                    });
+                }
                 if from >= 0 && to >= 0 {
                     let from = from as usize;
                     let to = to as usize;
